@@ -160,7 +160,10 @@ func RunFed(c *Ctx, in FedInput, timeout time.Duration, opts ...gateway.Option) 
 	}
 	doc, errs := gqlparser.LoadQuery(MonoSchema(), in.Query)
 	if errs != nil {
-		fc.Invalid = errs.Error()
+		fc.Invalid = errs[0].Rule
+		if fc.Invalid == "" {
+			fc.Invalid = "syntax"
+		}
 		return fc, nil
 	}
 	fc.Doc = doc
